@@ -88,9 +88,19 @@ func Fees(a *big.Int, fees []spec.Fee) FeeResult {
 		} else {
 			v, ok := new(big.Int).SetString(f.Amount, 10)
 			if !canonicalPos.MatchString(f.Amount) {
-				// not canonical: decide by meaning where the meaning is clear
-				if !ok || v.Sign() <= 0 {
+				// Not the canonical decimal form. The statement fixes the outcome only where the
+				// string denotes no positive integer under any common integer syntax (decimal or
+				// Go's prefixed/underscored literals): then it must be refused. Otherwise the
+				// transfer may be refused, or executed with the value the string denotes; when
+				// the two readings disagree (leading-zero octal) no exact value is demanded.
+				v0, ok0 := new(big.Int).SetString(f.Amount, 0)
+				switch {
+				case (!ok || v.Sign() <= 0) && (!ok0 || v0.Sign() <= 0):
 					return FeeResult{Verdict: MustRefuse, Reason: "fixed amount not a positive integer"}
+				case ok && ok0 && v.Cmp(v0) != 0:
+					return FeeResult{Verdict: Either, Reason: "ambiguous spelling"}
+				case !ok:
+					v, ok = v0, true
 				}
 				either = "non-canonical spelling of a positive integer"
 			}
